@@ -248,8 +248,14 @@ def h_bounds(fac_b):
         c.assume(rm.e > 0)
         rmsimg = real_np.empty((1, 1), dtype=object)
         rmsimg[0, 0] = rm
-        lo1, hi1 = f(amp, ic, oc, rmsimg, 0, 0)
-        lo2, hi2 = f(-amp, ic, oc, rmsimg, 0, 0)
+        pa_, pb_ = real('pixbeam_a'), real('pixbeam_b')
+        c.assume(pb_.e > 0)
+        c.assume(pa_.e >= pb_.e)
+
+        class PB:
+            a, b, pa = pa_, pb_, real('pixbeam_pa')
+        lo1, hi1 = f(amp, ic, oc, rmsimg, 0, 0, PB())
+        lo2, hi2 = f(-amp, ic, oc, rmsimg, 0, 0, PB())
         c.oblige('bounds:bounds(-amp) == (-max, -min) of bounds(amp)', z3.And(core.lift(lo2) + core.lift(hi1) == 0, core.lift(hi2) + core.lift(lo1) == 0))
         c.oblige('bounds:min <= amp <= max for |amp| >= outerclip*rms', z3.And(core.lift(lo1) <= amp.e, amp.e <= core.lift(hi1)),
                  assume=[z3.Or(amp.e >= oc.e * rm.e, -amp.e >= oc.e * rm.e)])
@@ -350,6 +356,60 @@ def polarity_oracle():
         shutil.rmtree(d, ignore_errors=True)
 
 
+def island_mirror_oracle():
+    """island-level catalogue (doislandflux): the islands reported for -image are those of image with the flux columns negated
+    and everything else (position of the extreme pixel, background, local rms, pixel count, extent) unchanged"""
+    import logging
+    import os
+    import shutil
+    import tempfile
+    from astropy.io import fits
+    sfm = loader.real('source_finder')
+    models = loader.real('models')
+    d = tempfile.mkdtemp(prefix='c13i_', dir='/var/tmp')
+    try:
+        N = 90
+        y, x = real_np.mgrid[0:N, 0:N].astype(float)
+        img = 30 * real_np.exp(-((x - 25.3) ** 2 / (2 * 2.6 ** 2) + (y - 30.8) ** 2 / (2 * 1.7 ** 2)))
+        img += -22 * real_np.exp(-((x - 62.6) ** 2 / (2 * 1.8 ** 2) + (y - 58.1) ** 2 / (2 * 3.1 ** 2)))
+        img += 9 * real_np.exp(-((x - 70.2) ** 2 + (y - 18.4) ** 2) / (2 * 1.7 ** 2))
+        hdr = fits.Header()
+        hdr['CTYPE1'], hdr['CTYPE2'] = 'RA---SIN', 'DEC--SIN'
+        hdr['CRVAL1'], hdr['CRVAL2'] = 210., 12.
+        hdr['CRPIX1'] = hdr['CRPIX2'] = N / 2
+        hdr['CDELT1'], hdr['CDELT2'] = -1 / 120, 1 / 120
+        hdr['BMAJ'] = hdr['BMIN'] = 1.7 * 2.3548 / 120
+        hdr['BPA'] = 0.
+        cats = []
+        for sign in (1, -1):
+            fn = os.path.join(d, 'i%d.fits' % sign)
+            fits.PrimaryHDU(sign * img, header=hdr).writeto(fn)
+            f = sfm.SourceFinder(log=logging.getLogger('c13'))
+            srcs = f.find_sources_in_image(fn, rms=0.4, bkg=0.0, cores=1, nonegative=False, doislandflux=True)
+            isl = [s_ for s_ in srcs if isinstance(s_, models.IslandSource)]
+            cats.append(sorted(isl, key=lambda s_: (round(s_.dec, 5), round(s_.ra, 5))))
+        a, b = cats
+        if len(a) != 3 or len(b) != 3:
+            return True, 'island-count', 'island catalogue of image has %d rows, of -image %d (three isolated sources)' % (len(a), len(b))
+        for p, q in zip(a, b):
+            same = ('ra', 'dec', 'local_rms', 'pixels', 'x_width', 'y_width', 'area', 'components', 'eta')
+            for k in same:
+                u, v = getattr(p, k, None), getattr(q, k, None)
+                if u is None and v is None:
+                    continue
+                if not (u == v or (isinstance(u, float) and abs(u - v) <= 1e-9 * max(1, abs(u)))):
+                    return True, 'island-mirror', 'island at (%.5f, %.5f): column %s is %r in the catalogue of image and %r in that of -image' % (p.ra, p.dec, k, u, v)
+            for k in ('peak_flux', 'int_flux', 'background'):
+                u, v = getattr(p, k), getattr(q, k)
+                if not abs(u + v) <= 1e-9 * max(1, abs(u)):
+                    return True, 'island-mirror', 'island at (%.5f, %.5f): %s is %r in the catalogue of image and %r in that of -image (should be the negative)' % (p.ra, p.dec, k, u, v)
+        return False, None, None
+    except Exception as e:
+        return True, 'raises-%s' % type(e).__name__, repr(e)[:200]
+    finally:
+        shutil.rmtree(d, ignore_errors=True)
+
+
 def h_sortkey(keycode):
     def h(c):
         key = eval(keycode, dict(core.BUILTINS, np=loader.NPProxy(), abs=core.sym_abs))
@@ -378,7 +438,7 @@ def selectors(rep):
         fac_sel, t1 = slicer.slice_function(F, 'estimate_lmfit_parinfo', targets=['isnegative', 'kappa_sigma'], params=['self', 'data', 'rmsimg', 'curve', 'outerclip', 'is_flag'],
                                             cls='SourceFinder', returns=['isnegative', 'kappa_sigma'])
         fac_peak, t2 = slicer.slice_function(F, 'estimate_lmfit_parinfo', targets=['amp', 'xpeak', 'ypeak'], params=['summit', 'isnegative'], cls='SourceFinder', returns=['amp', 'xpeak', 'ypeak'], flatten_loops=True)
-        fac_b, t3 = slicer.slice_function(F, 'estimate_lmfit_parinfo', targets=['amp_min', 'amp_max'], params=['amp', 'innerclip', 'outerclip', 'rmsimg', 'xo', 'yo'], cls='SourceFinder', returns=['amp_min', 'amp_max'], flatten_loops=True)
+        fac_b, t3 = slicer.slice_function(F, 'estimate_lmfit_parinfo', targets=['amp_min', 'amp_max'], params=['amp', 'innerclip', 'outerclip', 'rmsimg', 'xo', 'yo', 'pixbeam'], cls='SourceFinder', returns=['amp_min', 'amp_max'], flatten_loops=True)
     except slicer.AnchorMissing as e:
         rep.inconc('anchor-missing %s' % e)
         rep.end_kernel()
@@ -698,6 +758,10 @@ def run(rep):
     rep.validated_runs(3)
     if bad:
         rep.finding('C13/K-polarity-filter/%s' % cls, dict(kind='polarity-catalogue'), detail, kernel='K-polarity-filter')
+    bad, cls, detail = island_mirror_oracle()
+    rep.validated_runs(2)
+    if bad:
+        rep.finding('C13/K-negate-islands/%s' % cls, dict(kind='island-catalogue'), detail, kernel='K-negate-islands')
     from checks import C03, r2c
     mods = r2c.sym_sf()
     rep.kernel('K-tiny', functions=[F + ':SourceFinder.estimate_lmfit_parinfo'], bounds='the WHOLE function on single-sign islands 1x3, 2x2, 2x3 (one blank) with every pixel, noise, clip level and the pixel beam symbolic; the island and its negation in one path',
@@ -754,6 +818,8 @@ def replay(w):
         bad, cls, detail = polarity_oracle()
     elif wit.get('kind') == 'blank-adjacent':
         bad, cls, detail = blank_adjacent_oracle()
+    elif wit.get('kind') == 'island-catalogue':
+        bad, cls, detail = island_mirror_oracle()
     elif wit.get('kind') == 'errors-sign':
         bad, cls, detail = errsign_oracle()
     else:
